@@ -240,13 +240,17 @@ def mutate(d, rng, part=None, kind=None):
             else:
                 v[t]['images'].pop(rng.randrange(len(v[t]['images'])))
         else:
-            w = rng.choice([k for k in v[t] if k != 'images'])
+            w = rng.choice([k for k in v[t] if k not in ('images', 'dtype_instance')])     # the same element type, spelt as an instance, is no change
             if w == 'dsize':
                 v[t]['dsize'] += 1
             elif w == 'dtype':
                 v[t]['dtype'] = 'float64' if v[t]['dtype'] != 'float64' else 'float32'
-            else:
+            elif isinstance(v[t][w], bool):
+                v[t][w] = not v[t][w]
+            elif isinstance(v[t][w], str):
                 v[t][w] = v[t][w] + '_x'
+            else:
+                v[t][w] = v[t][w] + 1
     elif part == 'matches':
         t = rng.choice(list(v))
         if kind == 'add':
@@ -322,12 +326,19 @@ def gen_case(rng):
                      special_floats=False)
     d = kgen.gen_dataset(rng, opts)
     mode = rng.choice(['copy', 'reload', 'mut', 'mut', 'mut', 'mut', 'mut', 'mut'])
+    if d['points3d'] is not None and len(d['points3d']['rows']) >= 2 and rng.random() < 0.15:
+        mode = 'copy'
     if mode == 'mut':
         m, info = mutate(d, rng)
         if m is None:
             mode = 'copy'
         else:
             return {'d': d, 'other': m, 'mode': 'mut', 'info': info, 'side': rng.choice(['a', 'b'])}
+    if mode == 'copy' and d['points3d'] is not None and len(d['points3d']['rows']) >= 2 and rng.random() < 0.8:
+        # two datasets whose point clouds are OVERLAPPING WINDOWS OF ONE BUFFER (rows 0..n-1 and rows 1..n of an (n+1)-row array, as
+        # two sub-maps cut from one reconstruction are): same shape, shared memory, different points
+        return {'d': d, 'other': None, 'mode': 'copy', 'shared_points': True,
+                'info': {'part': 'points3d', 'kind': 'shifted-window', 'expect_equal': False}, 'side': rng.choice(['a', 'b'])}
     return {'d': d, 'other': None, 'mode': mode, 'info': {'part': None, 'kind': mode, 'expect_equal': True}, 'side': 'b'}
 
 
@@ -363,6 +374,13 @@ def run_real(case):
         b = copy.deepcopy(a)
     else:
         b = kgen.build(case['other'])
+    if case.get('shared_points'):
+        import numpy as np
+        kapture = kap()
+        pts = np.asarray(a.points3d, dtype=float)
+        buf = np.vstack([pts, pts[-1:] + 1.0])
+        a.points3d = kapture.Points3d(buf[:-1])
+        b.points3d = kapture.Points3d(buf[1:])
     if case['side'] == 'a':
         a, b = b, a
     res = {}
